@@ -216,6 +216,9 @@ func renderGo(f File) string {
 		} else {
 			b.WriteString("\n")
 			for _, s := range d.Body {
+				if s.Lit {
+					continue
+				}
 				if style == 3 {
 					b.WriteString("\t// step\n")
 				}
